@@ -6,7 +6,7 @@ import prelude as P
 NAME = 'enum_glue'
 BACKEND = 'enum'
 CONN = 'crates/anemo/src/connection.rs'
-COVER = {'peer_id_from_first_certificate': [0]}
+COVER = {'peer_id_from_first_certificate': [0], 'pinned_verifier': [0], 'allow_list_layer': [0]}
 
 PRELUDE = r'''// GENERATED on every run by /verif/vc from /repo's working tree -- do not edit
 #![allow(dead_code, unused, non_upper_case_globals)]
@@ -17,12 +17,71 @@ impl Error { pub fn msg() -> Self { Error } }
 impl From<rustls::Error> for Error { fn from(_: rustls::Error) -> Self { Error } }
 #[derive(Clone, Debug, PartialEq)]
 pub struct CertificateDer { pub key: u8, pub well_formed: bool }
-pub mod rustls { #[derive(Debug)] pub enum Error { InvalidCertificate } }
+pub mod rustls {
+    use super::*;
+    #[derive(Debug)] pub struct OtherError(pub Arc<AsStdError>);
+    #[derive(Debug)] pub enum CertificateError { BadEncoding, BadSignature, Other(OtherError) }
+    #[derive(Debug)] pub enum Error { InvalidCertificate(CertificateError), UnsupportedNameType, General(String) }
+    #[derive(Debug, PartialEq, Clone, Copy)] pub enum SignatureScheme { ED25519, ECDSA_NISTP256_SHA256, RSA_PSS_SHA256 }
+    pub struct DigitallySignedStruct { pub scheme: SignatureScheme, pub valid_for_cert_key: bool }
+    pub mod client { pub mod danger { pub use super::super::super::HandshakeSignatureValid; } }
+    pub mod crypto {
+        use super::super::*;
+        // rustls' check of the handshake signature: succeeds iff the signature was made with the private key of the certificate's public key
+        // AND the scheme is one of the supported algorithms
+        fn check(dss: &super::DigitallySignedStruct, algs: &WebPkiSupportedAlgorithms) -> std::result::Result<HandshakeSignatureValid, super::Error> {
+            unsafe { SIG_CHECKS += 1; }
+            if dss.valid_for_cert_key && algs.schemes.contains(&dss.scheme) { Ok(HandshakeSignatureValid(())) } else { Err(super::Error::InvalidCertificate(super::CertificateError::BadSignature)) }
+        }
+        pub fn verify_tls12_signature(_m: &[u8], _c: &CertificateDer, dss: &super::DigitallySignedStruct, algs: &WebPkiSupportedAlgorithms) -> std::result::Result<HandshakeSignatureValid, super::Error> { check(dss, algs) }
+        pub fn verify_tls13_signature(_m: &[u8], _c: &CertificateDer, dss: &super::DigitallySignedStruct, algs: &WebPkiSupportedAlgorithms) -> std::result::Result<HandshakeSignatureValid, super::Error> { check(dss, algs) }
+    }
+}
+pub static mut SIG_CHECKS: u32 = 0;
+use std::sync::Arc;
+#[derive(Debug)] pub struct AsStdError(pub Error);
+impl From<Error> for AsStdError { fn from(e: Error) -> Self { AsStdError(e) } }
+#[derive(Debug)] pub struct HandshakeSignatureValid(());
+impl HandshakeSignatureValid { pub fn assertion() -> Self { HandshakeSignatureValid(()) } }
+#[derive(Debug)] pub struct ServerCertVerified(());
+impl ServerCertVerified { pub fn assertion() -> Self { ServerCertVerified(()) } }
+pub struct WebPkiSupportedAlgorithms { pub schemes: &'static [rustls::SignatureScheme] }
+pub static SUPPORTED_ALGORITHMS: WebPkiSupportedAlgorithms = WebPkiSupportedAlgorithms { schemes: &[rustls::SignatureScheme::ED25519] };   // as the crate's static (checked textually in unit crypto)
+pub struct ServerName;
+pub struct UnixTime;
+#[derive(Clone, Debug)]
+pub struct CertVerifier { pub server_names: Vec<String>, pub base_accepts: bool }
+pub trait ServerCertVerifier {
+    fn verify_server_cert(&self, end_entity: &CertificateDer, intermediates: &[CertificateDer], server_name: &ServerName, ocsp_response: &[u8], now: UnixTime) -> std::result::Result<ServerCertVerified, rustls::Error>;
+    fn verify_tls12_signature(&self, message: &[u8], cert: &CertificateDer, dss: &rustls::DigitallySignedStruct) -> std::result::Result<HandshakeSignatureValid, rustls::Error>;
+    fn verify_tls13_signature(&self, message: &[u8], cert: &CertificateDer, dss: &rustls::DigitallySignedStruct) -> std::result::Result<HandshakeSignatureValid, rustls::Error>;
+}
+// the base verifier's certificate validation (self-signed, Ed25519, name): NOT under test here, answers as the harness says
+impl ServerCertVerifier for CertVerifier {
+    fn verify_server_cert(&self, _e: &CertificateDer, _i: &[CertificateDer], _n: &ServerName, _o: &[u8], _t: UnixTime) -> std::result::Result<ServerCertVerified, rustls::Error> {
+        if self.base_accepts { Ok(ServerCertVerified(())) } else { Err(rustls::Error::UnsupportedNameType) }
+    }
+    fn verify_tls12_signature(&self, _m: &[u8], _c: &CertificateDer, _d: &rustls::DigitallySignedStruct) -> std::result::Result<HandshakeSignatureValid, rustls::Error> { unreachable!() }
+    fn verify_tls13_signature(&self, _m: &[u8], _c: &CertificateDer, _d: &rustls::DigitallySignedStruct) -> std::result::Result<HandshakeSignatureValid, rustls::Error> { unreachable!() }
+}
+pub use crypto::peer_id_from_certificate;
+// ---- stand-ins for the authorization layer (anemo-tower/src/auth)
+pub mod anemo { pub use super::PeerId; pub mod types { pub mod response { pub use super::super::super::{IntoResponse, StatusCode}; } } }
+#[derive(Debug, PartialEq, Clone)] pub struct Bytes(pub u8);
+pub struct Request<T> { pub sender: Option<PeerId>, pub body: T }
+impl<T> Request<T> { pub fn peer_id(&self) -> Option<&PeerId> { self.sender.as_ref() } }
+#[derive(Debug, PartialEq)] pub struct Response<T> { pub status: StatusCode, pub body: T }
+pub trait IntoResponse { fn into_response(self) -> Response<Bytes>; }
+impl IntoResponse for StatusCode { fn into_response(self) -> Response<Bytes> { Response { status: self, body: Bytes(0) } } }
+pub trait AuthorizeRequest { fn authorize(&self, request: &mut Request<Bytes>) -> std::result::Result<(), Response<Bytes>>; }
+pub trait Service<Req> { type Future; fn call(&mut self, req: Req) -> Self::Future; }
+pub struct Counting { pub calls: u32, pub last_sender: Option<PeerId> }
+impl Service<Request<Bytes>> for Counting { type Future = u32; fn call(&mut self, req: Request<Bytes>) -> u32 { self.calls += 1; self.last_sender = req.sender; self.calls } }
 pub mod crypto {
     use super::*;
     // stand-in for x509 + pkcs8 parsing: the certificate's public key, or an error for a malformed certificate
     pub fn peer_id_from_certificate(certificate: &CertificateDer) -> std::result::Result<PeerId, rustls::Error> {
-        if certificate.well_formed { Ok(PeerId([certificate.key; 32])) } else { Err(rustls::Error::InvalidCertificate) }
+        if certificate.well_formed { Ok(PeerId([certificate.key; 32])) } else { Err(rustls::Error::InvalidCertificate(rustls::CertificateError::BadEncoding)) }
     }
 }
 pub mod quinn {
@@ -71,15 +130,51 @@ pub fn main() {
     if args.len() == 4 && args[1] == "--replay" {
         let choices: Vec<(u32, u32)> = args[3].split(',').filter(|s| !s.is_empty()).map(|s| (s.trim().parse().unwrap(), u32::MAX)).collect();
         let mut ch = Chooser { path: choices, pos: 0 };
-        harness::peer_id_from_first_certificate(&mut ch);
+        match args[2].as_str() { "pinned_verifier" => harness::pinned_verifier(&mut ch), "allow_list_layer" => harness::allow_list_layer(&mut ch), _ => harness::peer_id_from_first_certificate(&mut ch) }
         println!("no assertion failed for this choice sequence");
         return;
     }
     std::panic::set_hook(Box::new(|_| {}));
     run_all("peer_id_from_first_certificate", harness::peer_id_from_first_certificate);
+    run_all("pinned_verifier", harness::pinned_verifier);
+    run_all("allow_list_layer", harness::allow_list_layer);
 }
 pub mod harness {
     use super::*;
+    pub fn pinned_verifier(ch: &mut Chooser) { // @EOBL [C01,C03] @BOUNDED the pinning verifier on every combination of (certificate key = expected / other / malformed certificate) x (ordinary validation accepts / rejects) x (handshake signature valid for the certificate's key or not) x (signature scheme Ed25519 / ECDSA / RSA) x (TLS 1.2 / 1.3 callback): the certificate is accepted iff its key IS the expected identity and ordinary validation accepts it; the handshake signature is accepted iff rustls' check accepts it for Ed25519 -- never unconditionally
+        let expected = PeerId([1; 32]);
+        let v = ExpectedCertVerifier(CertVerifier { server_names: vec!["n".to_owned()], base_accepts: ch.any_bool() }, expected);
+        let kind = ch.below(3);
+        let cert = CertificateDer { key: if kind == 0 { 1 } else { 2 }, well_formed: kind != 2 };
+        let r = v.verify_server_cert(&cert, &[], &ServerName, &[], UnixTime);
+        assert!(r.is_ok() == (kind == 0 && v.0.base_accepts), "pinned dial accepted / refused the wrong certificate");
+        let schemes = [rustls::SignatureScheme::ED25519, rustls::SignatureScheme::ECDSA_NISTP256_SHA256, rustls::SignatureScheme::RSA_PSS_SHA256];
+        let dss = rustls::DigitallySignedStruct { scheme: schemes[ch.below(3) as usize], valid_for_cert_key: ch.any_bool() };
+        let want = dss.valid_for_cert_key && dss.scheme == rustls::SignatureScheme::ED25519;
+        let s = if ch.any_bool() { cover(0); v.verify_tls13_signature(&[1, 2, 3], &cert, &dss) } else { v.verify_tls12_signature(&[1, 2, 3], &cert, &dss) };
+        assert!(s.is_ok() == want, "handshake signature accepted without proof of the private key (or a valid one refused)");
+    }
+    pub fn allow_list_layer(ch: &mut Chooser) { // @EOBL [C20] @BOUNDED the allow-list authorizer behind the authorization layer for every allow-list over 2 peers (4 lists) x sender absent / peer 1 / peer 2 / peer 3: the wrapped service is invoked (once, with that request) iff the sender is listed; NotFound for other senders, InternalServerError without sender identity; a refusal never reaches the service
+        let (p1, p2, p3) = (PeerId([1; 32]), PeerId([2; 32]), PeerId([3; 32]));
+        let mut list = Vec::new();
+        if ch.any_bool() { list.push(p1); }
+        if ch.any_bool() { list.push(p2); }
+        let s = ch.below(4);
+        let sender = if s == 0 { None } else if s == 1 { Some(p1) } else if s == 2 { Some(p2) } else { Some(p3) };
+        let listed = match sender { Some(p) => list.contains(&p), None => false };
+        if list.is_empty() && sender.is_none() { cover(0); }
+        let mut svc = RequireAuthorization::new(Counting { calls: 0, last_sender: None }, AllowedPeers::new(list));
+        let fut = svc.call(Request { sender, body: Bytes(9) });
+        match fut.kind {
+            Kind::Future { future } => { assert!(listed, "an unlisted or anonymous request reached the service"); assert!(future == 1 && svc.inner.calls == 1 && svc.inner.last_sender == sender); }
+            Kind::Error { response } => {
+                assert!(!listed, "a listed sender was refused");
+                assert!(svc.inner.calls == 0, "a refused request invoked the service");
+                let r = response.expect("refusal carries the authorizer's response");
+                assert!(r.status == if sender.is_none() { StatusCode::InternalServerError } else { StatusCode::NotFound }, "wrong status for the refusal");
+            }
+        }
+    }
     pub fn peer_id_from_first_certificate(ch: &mut Chooser) { // @EOBL [C01] @BOUNDED for every certificate chain of 1..3 certificates (keys drawn from 3 values, each well-formed or not): the identity attributed to the connection is the public key of the FIRST certificate (the end-entity whose key signed the handshake); if that one is malformed the connection is refused; never a panic
         let n = 1 + ch.below(3) as usize;
         let mut chain = Vec::new();
@@ -104,6 +199,30 @@ def build(ctx):
     t += 'impl Connection {\n'
     t += C.fn(CONN, 'impl Connection :: fn new', 'Connection::new', ['C01'], probe=False, rewrites=[dict(rule='X5', pattern='std::time::Instant', repl='Instant', optional=True)])
     t += C.fn(CONN, 'impl Connection :: fn try_peer_id', 'Connection::try_peer_id', ['C01'], probe=False)
+    t += '}\n'
+    CR = 'crates/anemo/src/crypto.rs'
+    rw = [dict(rule='X5', pattern="CertificateDer<'_>", repl='CertificateDer', optional=True)]
+    t += C.item(CR, 'struct ExpectedCertVerifier', derives=False)
+    t += 'impl ServerCertVerifier for ExpectedCertVerifier {\n'
+    for f in ('verify_server_cert', 'verify_tls12_signature', 'verify_tls13_signature'):
+        t += C.fn(CR, 'impl ServerCertVerifier for ExpectedCertVerifier :: fn ' + f, 'ExpectedCertVerifier::' + f, ['C01', 'C03'], probe=False, pub=False, rewrites=rw)
+    t += '}\n'
+    A = 'crates/anemo-tower/src/auth/'
+    t += '#[repr(u16)]\n' + C.item('crates/anemo/src/types/response.rs', 'enum StatusCode', extra_derive=['Debug'])
+    t += C.item(A + 'mod.rs', 'struct AllowedPeers', derives=False)
+    t += 'impl AllowedPeers {\n' + C.fn(A + 'mod.rs', 'impl AllowedPeers :: fn new', 'AllowedPeers::new', ['C20'], probe=False) + '}\n'
+    t += 'impl AuthorizeRequest for AllowedPeers {\n' + C.fn(A + 'mod.rs', 'impl AuthorizeRequest for AllowedPeers :: fn authorize', 'AllowedPeers::authorize', ['C20'], probe=False, pub=False) + '}\n'
+    t += C.item(A + 'service.rs', 'struct RequireAuthorization', derives=False)
+    t += C.item(A + 'future.rs', 'pin_project! :: struct ResponseFuture')
+    t += C.item(A + 'future.rs', 'pin_project! :: enum Kind')
+    t += 'impl<F> ResponseFuture<F> {\n'
+    t += C.fn(A + 'future.rs', 'impl <F> ResponseFuture<F> :: fn future', 'ResponseFuture::future', ['C20'], probe=False)
+    t += C.fn(A + 'future.rs', 'impl <F> ResponseFuture<F> :: fn invalid_auth', 'ResponseFuture::invalid_auth', ['C20'], probe=False)
+    t += '}\nimpl<S, A> RequireAuthorization<S, A> {\n'
+    t += C.fn(A + 'service.rs', 'impl <S, A> RequireAuthorization<S, A> :: fn new', 'RequireAuthorization::new', ['C20'], probe=False)
+    t += '}\nimpl<S: Service<Request<Bytes>>, A: AuthorizeRequest> RequireAuthorization<S, A> {\n'
+    t += C.fn(A + 'service.rs', 'impl <S, A> Service<Request<Bytes>> for RequireAuthorization<S, A> .* :: fn call', 'RequireAuthorization::call', ['C20'], probe=False,
+              sig_rewrites=[('Self::Future', 'ResponseFuture<S::Future>')])
     t += '}\n'
     t += C.helpers_here()
     t += HARNESS
